@@ -1,88 +1,58 @@
 import Fabio.Generated.C16
 import Fabio.Model.C16
 /-!
-Obligations over the facts regenerated from `/repo` on every run (C16): what the model of the interceptor,
-the director and the connection pool silently assumes about `proxy/grpc_handler.go` and `main.go`.
-
-The facts are *event lists in role names* (see the header of `tools/factgen/c16.go`): the source is normalised
-(named constants inlined, switch → if chains), calls to unexported helpers are followed into their bodies with
-the arguments bound to the parameters, and variables are named by role — `recv` the receiver, `p<i>` the i-th
-parameter of the anchored function, `c<i>` parameters of a function literal, `looked`/`lookedErr` the result
-of the route lookup, `<callee>#<i>` the i-th result of a multi-value call, `lit#T` a composite literal,
-`made#T` the result of a constructor-like helper, `rk<n>`/`rv<n>` range variables; `[g₁ && g₂] e` reads "event
-e happens under the conditions g₁, g₂" (an early `return`/`continue` under `c` contributes `!(c)` to what
-follows).  Renaming locals, parameters, receivers or unexported helpers, extracting or inlining helpers,
-introducing named constants and turning if-chains into switches leave these lists unchanged.
+OBLIGATIONS over the facts regenerated from `/repo` on every run (`tools/factgen/c16.go`): statements the proof
+chain of C16 needs and that no correspondence stream establishes by running the code. Each names the breaking
+change it is there to exclude and is stated over the weakest observation that still excludes it — an order
+relation, a count, a membership — not over a spelled-out event list. Pins of sequential code whose behaviour
+the streams compare with the model on every run live in `C16Pins.lean` (change detectors). Core only, `decide`.
 -/
 namespace Fabio.Props.C16Facts
 open Fabio Fabio.Generated.C16
 
-/-- The destination host is read from the metadata key the model uses; the function returns the first value
-of that key exactly when the key has one value, and the empty string otherwise. -/
-theorem dsthost_key_pinned :
-    dsthostKey.toList = Model.C16.dsthostKey ∧
-    dsthostResults = ["[!(len(p0[\"dsthost\"]) == 1)] ret \"\"", "[len(p0[\"dsthost\"]) == 1] ret p0[\"dsthost\"][0]"] := ⟨by decide, rfl⟩
+/-- **Lock discipline of the pool.** Every function that touches the pool's connection map does so inside a
+lock: no read without a lock, no store or delete without the *write* lock (walked in source order over every
+function of the package that mentions the map; goroutine bodies start without a lock). The pool model reads
+and writes the map in single steps; the race theorem's micro-steps `read` and `set` and the cleanup step are
+atomic because of this.
+Excludes: dropping the `RLock` around `Get`'s read, downgrading `cleanup`'s `Lock` to `RLock`, a store outside
+`Set`'s critical section: data races on a Go map that show only under an unlucky interleaving (`c16.race` runs
+without the race detector and would see them by luck at best). -/
+theorem pool_map_only_touched_under_its_lock :
+    poolUnlockedAccesses = [] ∧ poolWritesUnderReadLock = [] := by decide
 
-/-- **Link to C03.** The interceptor builds the request from `getDestinationHostFromMetadata(md)` (Host) and
-`url.ParseRequestURI(info.FullMethod)` (URL), where `md` is the incoming metadata of the stream's context. -/
-theorem lookup_request_pinned :
-    lookupRequest = ["lit http.Request {Header=_; Host=recv.getDestinationHostFromMetadata(FromIncomingContext#0); URL=ParseRequestURI#0}", "lit http.Request {Header=_}}"] ∧
-    lookupInputs = ["call metadata.FromIncomingContext(p1.Context())", "call url.ParseRequestURI(p2.FullMethod)", "call metadata.FromIncomingContext(p1.Context())"] := ⟨rfl, rfl⟩
+/-- … and every such function has exactly **one** critical section (one lock acquisition), at least the three
+the model knows (`Get`, `Set`, the cleanup loop): `Set`'s check-and-store is one atomic step (the repaired race,
+`race_outcomes`), one iteration of the cleanup loop is atomic with respect to `Get` and `Set` (`Pool.cleanup` is
+one step of `World.step`; `c16.pool` sequences the real loop through the mutex on that assumption).
+Excludes: releasing and re-taking the lock between `Set`'s check and its store, or between cleanup's scan and
+its deletes — every access still under a lock, atomicity gone. -/
+theorem pool_critical_sections_are_single :
+    poolLockScopeKinds.all (fun k => k.length == 1) = true ∧ 3 ≤ poolAccessorCount := by decide
 
-/-- The synthetic request sets `Host`, `URL` and `Header` only (`lookup_request_pinned` lists the fields of
-the literal) and nothing stores into its `TLS` field (such a store would be a further entry of the list): `TLS`
-stays nil, so the routing model (C03) is applied with `tls := false` (`Props/C16Compose.lean: grpcReq`). The second
-entry is the header-only request handed to the route's auth scheme (C12, repair of D31); it comes after the
-lookup and is not the lookup's argument (`lookup_calls_table_lookup_once`: the argument is the first literal). -/
+/-- **Gates before the handler.** In `GrpcProxyInterceptor.Stream` (helpers followed) the table is consulted
+exactly once and first, the handler — which alone leads to director, pool and dialler — is called exactly once,
+in the function's own flow (not in a goroutine, a deferred call or a closure), and it is the *last* of these
+events: every status the interceptor answers by itself (`Internal`, `NotFound`, `PermissionDenied`,
+`Unauthenticated`) is returned before the handler can run. Hypothesis of `noroute_notfound_no_backend` and of
+`Props.C16Serve.gate_rejects_no_backend` ("rejected ⇒ state unchanged").
+Excludes: starting the handler (or the dial) before the access/auth decision is known. C16's streams exercise
+`NotFound`, `Internal` and the access gate; the auth gate's order is exercised by C12's `c12.grpc` only. -/
+theorem stream_gates_precede_the_handler :
+    streamOrder.head? = some "lookup" ∧ streamOrder.count "lookup" = 1 ∧
+    streamOrder.getLast? = some "handler" ∧ streamOrder.count "handler" = 1 ∧
+    ["go-handler", "defer-handler", "handler-in-closure"].all (fun e => !streamOrder.contains e) = true ∧
+    ["status:NotFound", "status:PermissionDenied", "status:Unauthenticated"].all (streamOrder.contains ·) = true := by
+  decide
+
+/-- **Link to C03.** The synthetic request the interceptor hands to `Table.Lookup` sets no `TLS` field — not in
+the composite literal, not by a later store — so the routing model is applied with `tls := false`
+(`Props/C16Compose.lean: grpcReq`), and it does set `Host` and `URL`.
+Excludes: filling `TLS` for calls that arrive on a `grpcs` listener (C03 then strips `:443` instead of `:80`
+from the host): invisible to `c16.call`, whose in-process proxy has a plain listener and whose `dsthost`
+values carry no port. -/
 theorem synthetic_request_has_no_tls :
-    lookupRequest.length = 2 := by decide
-
-/-- The flow of `Stream`: the table is consulted exactly once, through `Table.Lookup` on the current table
-with the configured picker and matcher; a lookup error is `codes.Internal`; a nil target is answered
-`codes.NotFound` and the function returns there; a target whose access rules deny the peer is answered
-`codes.PermissionDenied`, a target whose auth scheme rejects the call's `authorization` metadata
-`codes.Unauthenticated` (C12); only then the (single) call of the handler, which alone leads to director and
-pool. -/
-theorem lookup_calls_table_lookup_once :
-    streamFlow = ["call route.GetTable().Lookup(lit#http.Request, lit#http.Request.Header.Get(\"trace\"), route.Picker[recv.Config.Proxy.Strategy], route.Matcher[recv.Config.Proxy.Matcher], recv.GlobCache, recv.Config.GlobMatchingDisabled)", "[lookedErr != nil] ret status.Error(codes.Internal, \"internal error\")", "[!(lookedErr != nil) && looked == nil] ret status.Error(codes.NotFound, \"no route found\")", "[!(lookedErr != nil) && !(looked == nil) && looked.AccessDeniedAddr(remote)] ret status.Error(codes.PermissionDenied, \"access denied\")", "[!(lookedErr != nil) && !(looked == nil) && !(looked.AccessDeniedAddr(remote)) && looked.AuthScheme != \"\" && !looked.Authorized(lit#http.Request, nopResponseWriter{http.Header{}}, recv.AuthSchemes)] ret status.Error(codes.Unauthenticated, \"unauthorized\")", "[!(lookedErr != nil) && !(looked == nil) && !(looked.AccessDeniedAddr(remote))] call p3"] := rfl
-
-theorem nil_target_returns_notfound_before_handler :
-    streamHandlerCalls = 1 ∧ streamFlow.length = 6 := by decide
-
-/-- The director (the function literal `GetGRPCDirector` returns) copies the incoming metadata unchanged to
-the outgoing context and asks the pool — built once per director by the constructor — for the target the
-interceptor stored in the context; nothing else is called. The pool key is `URL.String()`. -/
-theorem director_copies_metadata_and_uses_pool :
-    directorCalls = ["call metadata.FromIncomingContext(c0)", "call FromIncomingContext#0.Copy()", "call metadata.NewOutgoingContext(c0, FromIncomingContext#0.Copy())", "call c0.Value(key{})", "call made#*grpcConnectionPool.Get(metadata.NewOutgoingContext(c0, FromIncomingContext#0.Copy()), c0.Value(key{}).(*route.Target))"] ∧
-    targetKeyReturns = ["ret p0.URL.String()"] := ⟨rfl, rfl⟩
-
-/-- `Get`: read under the read lock; a pooled connection that is not Shutdown is returned; otherwise exactly
-one `DialContext` to the target's host, and on success one `Set`, whose result is what the caller gets. -/
-theorem pool_get_shape :
-    poolGet = ["call recv.lock.RLock()", "call recv.lock.RUnlock()", "call recv.connections[makeGRPCTargetKey(p1)].GetState()", "[recv.connections[makeGRPCTargetKey(p1)] != nil && recv.connections[makeGRPCTargetKey(p1)].GetState() != connectivity.Shutdown] ret recv.connections[makeGRPCTargetKey(p1)], nil", "[!(recv.connections[makeGRPCTargetKey(p1)] != nil && recv.connections[makeGRPCTargetKey(p1)].GetState() != connectivity.Shutdown)] call grpc.DialContext(p0, p1.URL.Host)", "[!(recv.connections[makeGRPCTargetKey(p1)] != nil && recv.connections[makeGRPCTargetKey(p1)].GetState() != connectivity.Shutdown) && DialContext#1 == nil] call recv.Set(p1, DialContext#0)", "[!(recv.connections[makeGRPCTargetKey(p1)] != nil && recv.connections[makeGRPCTargetKey(p1)].GetState() != connectivity.Shutdown)] ret recv.Set(p1, DialContext#0), DialContext#1", "[!(recv.connections[makeGRPCTargetKey(p1)] != nil && recv.connections[makeGRPCTargetKey(p1)].GetState() != connectivity.Shutdown)] ret <inlined>"] := rfl
-
-/-- `Set`: under the write lock; a usable connection stored meanwhile is kept, the newcomer closed and the
-pooled one returned (the repaired race); otherwise the newcomer is stored and returned. -/
-theorem pool_set_shape :
-    poolSet = ["call recv.lock.Lock()", "defer recv.lock.Unlock()", "call recv.connections[makeGRPCTargetKey(p0)].GetState()", "[recv.connections[makeGRPCTargetKey(p0)] != nil && recv.connections[makeGRPCTargetKey(p0)] != p1 && recv.connections[makeGRPCTargetKey(p0)].GetState() != connectivity.Shutdown] call p1.Close()", "[recv.connections[makeGRPCTargetKey(p0)] != nil && recv.connections[makeGRPCTargetKey(p0)] != p1 && recv.connections[makeGRPCTargetKey(p0)].GetState() != connectivity.Shutdown] ret recv.connections[makeGRPCTargetKey(p0)]", "[!(recv.connections[makeGRPCTargetKey(p0)] != nil && recv.connections[makeGRPCTargetKey(p0)] != p1 && recv.connections[makeGRPCTargetKey(p0)].GetState() != connectivity.Shutdown)] store recv.connections[makeGRPCTargetKey(p0)] = p1", "[!(recv.connections[makeGRPCTargetKey(p0)] != nil && recv.connections[makeGRPCTargetKey(p0)] != p1 && recv.connections[makeGRPCTargetKey(p0)].GetState() != connectivity.Shutdown)] ret p1"] := rfl
-
-/-- The cleanup loop: under the write lock, against the current table, deleting exactly on "Shutdown" and on
-"no target of the table", closing (after `WaitForStateChange`, unconditionally) only in the second case, then
-sleeping for the interval, which is 5 seconds; the loop is started once per pool. `hasTarget` compares the key
-with `makeGRPCTargetKey` of every target of every route of every host. -/
-theorem cleanup_shape :
-    poolCleanup = ["call recv.lock.Lock()", "call route.GetTable()", "range recv.connections", "call rv1.GetState()", "[rv1.GetState() == connectivity.Shutdown] call delete(recv.connections, rk1)", "[!(rv1.GetState() == connectivity.Shutdown)] range route.GetTable()", "[!(rv1.GetState() == connectivity.Shutdown)] range rv2", "[!(rv1.GetState() == connectivity.Shutdown)] range rv3.Targets", "[!(rv1.GetState() == connectivity.Shutdown) && !hasTarget(rk1, route.GetTable())] call rv1.WaitForStateChange(WithTimeout#0, rv1.GetState())", "[!(rv1.GetState() == connectivity.Shutdown) && !hasTarget(rk1, route.GetTable())] call rv1.Close()", "[!(rv1.GetState() == connectivity.Shutdown) && !hasTarget(rk1, route.GetTable())] call delete(recv.connections, rk1)", "call recv.lock.Unlock()", "call time.Sleep(recv.cleanupInterval)"] ∧
-    hasTargetReturns = ["range p1", "range rv1", "range rv2.Targets", "[p0 == makeGRPCTargetKey(rv3)] ret true", "ret false"] ∧
-    cleanupIntervalSeconds = 5 ∧
-    cleanupGoroutinesStarted = 1 := ⟨rfl, rfl, rfl, rfl⟩
-
-/-- `main.newGrpcProxy` wires codec, unknown-service handler (the transparent handler over the director),
-interceptor (configuration, stats handler, glob cache, the loaded auth schemes) and the two message limits — each from its own
-configuration value, unconditionally — as the harness (`harness/c16/call.go: newProxyServer`) replicates them;
-`ListenAndServeGRPC` passes the options unchanged to `grpc.NewServer`. -/
-theorem proxy_wiring_pinned :
-    grpcServerOptions = ["grpc.CustomCodec(grpc_proxy.Codec())", "grpc.MaxRecvMsgSize(p0.Proxy.GRPCMaxRxMsgSize)", "grpc.MaxSendMsgSize(p0.Proxy.GRPCMaxTxMsgSize)", "grpc.StatsHandler(p2)", "grpc.StreamInterceptor(lit#proxy.GrpcProxyInterceptor.Stream)", "grpc.UnknownServiceHandler(grpc_proxy.TransparentHandler(proxy.GetGRPCDirector(p1, p0)))"] ∧
-    grpcInterceptorLit = ["lit proxy.GrpcProxyInterceptor {AuthSchemes=LoadAuthSchemes#0; Config=p0; GlobCache=route.NewGlobCache(p0.GlobCacheSize); StatsHandler=p2}"] ∧
-    grpcNewServer = ["[!(ListenTCP#1 != nil)] call grpc.NewServer(p1...)"] := ⟨rfl, rfl, rfl⟩
+    lookupRequestFields.contains "TLS" = false ∧ lookupRequestTLSStores = 0 ∧
+    lookupRequestFields.contains "Host" = true ∧ lookupRequestFields.contains "URL" = true := by decide
 
 end Fabio.Props.C16Facts
